@@ -190,7 +190,55 @@ def cull_sweep(tier, seed=0):
                     msg = f"{type(e).__name__}: {e}"
                 if msg:
                     fails.append(rtc.Failure("HighLevelGraph.cull", {"stack": name, "keys": [str(k) for k in ks][:6]}, "ensures", "C10-cull-and-fusion-sound", msg))
+    # hand-written LEGACY high-level graphs: values that are lists / dicts of keys, bare-key aliases, nested tasks, literal
+    # data, two independent branches under a common layer -- every key subset
+    import itertools as _it
+    from operator import add as _add
+
+    from dask.highlevelgraph import MaterializedLayer
+
+    def _legacy_graphs():
+        inc = lambda v: v + 1  # noqa: E731
+        tot = lambda vs: sum(vs)  # noqa: E731
+        dtot = lambda dd: sum(dd.values())  # noqa: E731
+        lx = {("x", 0): 1, ("x", 1): 10, ("x", 2): 100}
+        lmid = {("mid", 0): [("x", 0), ("x", 1)], ("mid", 1): (inc, ("x", 2)), ("mid", 2): ("x", 0), ("mid", 3): (tot, [("x", 1), (inc, ("x", 2))])}
+        lout = {("out", 0): (tot, ("mid", 0)), ("out", 1): (inc, ("mid", 1)), ("out", 2): (inc, ("mid", 2)), ("out", 3): (_add, ("mid", 3), ("out", 1))}
+        yield "lists-of-keys", HighLevelGraph({"x": MaterializedLayer(lx), "mid": MaterializedLayer(lmid), "out": MaterializedLayer(lout)}, {"x": set(), "mid": {"x"}, "out": {"mid"}})
+        la = {("a", 0): 1, ("a", 1): 2}
+        lb = {("b", 0): (inc, ("a", 0)), ("b", 1): (inc, ("a", 1))}
+        lb1 = {("b1", 0): (inc, ("b", 0))}
+        lc = {("c", 0): (inc, ("a", 0)), ("c", 1): (inc, ("a", 1)), ("c", 2): (inc, ("b1", 0))}
+        ld = {("d", 0): (tot, [("c", 0), ("c", 1)]), ("d", 1): (inc, ("c", 2))}
+        yield "two-branches", HighLevelGraph({"a": MaterializedLayer(la), "b": MaterializedLayer(lb), "b1": MaterializedLayer(lb1), "c": MaterializedLayer(lc), "d": MaterializedLayer(ld)},
+                                             {"a": set(), "b": {"a"}, "b1": {"b"}, "c": {"a", "b1"}, "d": {"c"}})
+
+    for gname, g in _legacy_graphs():
+        fullg = dict(g)
+        allkeys = sorted(fullg, key=str)
+        want_all = dict(zip(allkeys, dask.get(fullg, allkeys)))
+        subsets = [list(c) for r in (1, 2) for c in _it.combinations(allkeys, r)] + [allkeys]
+        for ks in subsets:
+            cases += 1
+            try:
+                c1 = g.cull(set(ks))
+                d = dict(c1)
+                missing = [dep for k in d for dep in get_dependencies(d, k) if dep not in d]
+                msg = None
+                if missing:
+                    msg = f"cull({ks}) dropped tasks that the kept tasks need: {missing[:4]}"
+                elif any(k not in d for k in ks):
+                    msg = f"cull({ks}) dropped requested keys"
+                else:
+                    got = dask.get(d, list(ks))
+                    if list(got) != [want_all[k] for k in ks]:
+                        msg = f"cull({ks}): computed values differ from the unculled graph"
+            except Exception as e:  # noqa
+                msg = f"{type(e).__name__}: {e}"
+            if msg:
+                fails.append(rtc.Failure("HighLevelGraph.cull", {"stack": "legacy:" + gname, "keys": [str(k) for k in ks][:6]}, "ensures", "C10-cull-and-fusion-sound", msg))
+                break
     return {"function": "dask/highlevelgraph.py:cull, dask/blockwise.py:Blockwise.cull/optimize_blockwise (real code, NumPy values)", "bounded": True,
-            "bound": {"layer stacks": 10, "fused graph": "culled again, fused Blockwise.cull dependencies checked", "key subsets per stack": 5 if tier == "quick" else 11, "double cull": True},
+            "bound": {"layer stacks": 10, "legacy graphs": "2 hand-written high-level graphs with list/dict-of-keys values, aliases, two branches: every 1- and 2-key subset", "fused graph": "culled again, fused Blockwise.cull dependencies checked", "key subsets per stack": 5 if tier == "quick" else 11, "double cull": True},
             "cases": cases, "distinct_nontrivial": cases, "failures_found": len(fails), "wall_s": round(time.time() - t0, 2),
             "samples": [{"native_case": {"stack": "elemwise-transpose-sum", "keys": "half of the output blocks"}}], "failures": fails[:5]}
